@@ -167,6 +167,7 @@ def op_menu(shape, tier):
             ops.append(("getitem", sy, sx))
     for i in range(-ny, ny):
         ops.append(("getitem-int", i))
+        ops.append(("getitem-int", i, "np.int64"))  # the same index as a numpy integer
     for sy in ys[:6]:
         ops.append(("getitem-rows", sy))
     ops += [("pad", p, q) for p in (0, 1, 3) for q in (None, 0, 2)]
@@ -198,7 +199,7 @@ def apply_op(g: GeoBox, op):
     if k == "getitem":
         return g[slice(*op[1]), slice(*op[2])]
     if k == "getitem-int":
-        return g[op[1]]
+        return g[np.int64(op[1])] if len(op) > 2 else g[op[1]]
     if k == "getitem-rows":
         return g[slice(*op[1])]
     if k == "pad":
